@@ -46,7 +46,12 @@ def run(tier, seed, only, jobs):
     from props import c05_table
     from vf.astvc import unit as UB
     UB.TIER.update(tier=tier, seed=seed)
-    U = units_A(tier) + units_F(tier) + c05_table.units(tier) + c05_table.units2(tier)
+    from props import C09 as _c09
+    def _fmt():
+        r = _c09.unit_format_retry()
+        r.id = "C05.format.fpunchf_helper_complete_output"
+        return r
+    U = units_A(tier) + units_F(tier) + c05_table.units(tier) + c05_table.units2(tier) + [("C05.format.fpunchf_helper_complete_output", _fmt)]
     if only:
         U = [x for x in U if only in x[0]]
     res = core.run_units(U, jobs=jobs)
